@@ -316,7 +316,21 @@ var symOdd = []rune{'.', '!', '?', '<', '>', '=', '+', '/', 0xe9, 0x3bb, 0x1f600
 
 // genSymbol: mode 0 = plain identifier; 1 = over the characters SymbolRegex allows (may contain
 // operator characters that the lexer splits); 2 = any name (no printed syntax can protect it)
+var symAffixes = []string{"true", "false", "nil", "NaN", "nan", "Inf", "inf", "for", "hash", "e", "x"}
+
 func genSymbol(r *lib.Rng, mode int) string {
+	s := genSymbolPlain(r, mode)
+	if r.Intn(12) == 0 { // a reserved word as prefix or suffix of a longer name
+		a := symAffixes[r.Intn(len(symAffixes))]
+		if r.Bool() {
+			return a + s
+		}
+		return s + a
+	}
+	return s
+}
+
+func genSymbolPlain(r *lib.Rng, mode int) string {
 	var sb strings.Builder
 	sb.WriteByte(symFirst[r.Intn(len(symFirst))])
 	n := r.Intn(5)
